@@ -9,7 +9,7 @@ agreement); Environment returns literal values unchanged and never overwrites a 
 import ast
 from ..interp import check_loop
 from ..program import AnalysisError
-from ..rules import is_call, is_mcall, mentions
+from ..rules import Arms, is_call, is_mcall, mentions
 from ..terms import C, Evaluator, G, P, is_t, mk_proj, show, subterms
 
 ST = "core/compiler/interpreters/stateful.py"
@@ -23,13 +23,13 @@ def environment(chk, prog):
     W = lambda m: f"{E.module.rel}:{E.methods[m].lineno}"
     SELF, VAR = P("self"), P("var")
     r = ev.eval_fn(E.methods["get"], E.module, E)
-    got = {}
+    got = Arms()
     for conds, ret in r.returns:
         got["lit" if any(is_t(t, "isinst") and t[2] == "Literal" and p for t, p in conds) else "var"] = ret
     ok = got.get("lit") == ("attr", VAR, "val") and got.get("var") == ("call", ("attr", ("attr", SELF, "env"), "get"), (("attr", VAR, "count"),), ())
     chk.require(ok, "ENV", "Environment.get", "literals evaluate to their value; variables by count", derived={k: show(v) for k, v in got.items()}.__str__(), expected="var.val / self.env.get(var.count)", where=W("get"))
     r = ev.eval_fn(E.methods["write"], E.module, E)
-    got = {}
+    got = Arms()
     wrote = None
     for conds, ret in r.returns:
         pos = [t for t, p in conds if p]
